@@ -119,6 +119,9 @@ func cmdRun(args []string) int {
 	var paramOv multiFlag
 	fs.Var(&paramOv, "param", "override a harness parameter: name=value (repeatable; for experiments, not for registered checks)")
 	fs.Parse(args)
+	if len(paramOv) > 0 {
+		os.Setenv("GOSX_PARAMS", strings.Join(paramOv, ","))
+	}
 	if t := os.Getenv("VERIF_TIER"); t != "" && !isFlagSet(fs, "tier") {
 		*tier = t
 	}
